@@ -47,6 +47,9 @@ type GenOpts struct {
 	// DowntimePct > 0: that share of the blocks has validators missing from the last commit
 	// (worlds with a short x/slashing window turn that into downtime slashes and jailing).
 	DowntimePct int
+	// SimPct > 0: that share of the transactions is not delivered but run as a node-local
+	// simulation on the recording node (C08, C14: the replicas never see them)
+	SimPct int
 	// PricePool, if set, replaces the pool of price strings of generated price submissions.
 	PricePool []string
 	// Dynamic, if set, adjusts the weights to the current state before every draw.
@@ -225,7 +228,17 @@ func allAssets(m *Machine) []int {
 
 // Draw draws the next action. The current chain state is consulted only to bias amounts and
 // choices towards the boundaries the code branches on; the drawn action is fully concrete.
+// Draw draws the next action; with SimPct a share of the transactions is turned into node-local
+// simulations.
 func (m *Machine) Draw(t *rapid.T, g *GenOpts) Action {
+	a := m.draw0(t, g)
+	if g.SimPct > 0 && simulatable(a.Kind) && pct(t, g.SimPct, "simulate?") {
+		a.Sim = true
+	}
+	return a
+}
+
+func (m *Machine) draw0(t *rapid.T, g *GenOpts) Action {
 	w := g.Weights
 	if w == nil {
 		w = defaultWeights()
